@@ -1,11 +1,11 @@
 ------------------------------- MODULE SweepPS -------------------------------
 (* Mps._evolve_tdvp_ps (mps/mps.py:1267-1404): two half sweeps driven by iter_idx_list(full=True)
    from whatever (qnidx, to_right) the input state carries. Versions/stamps as in TreeSweep.        *)
-EXTENDS Integers, Sequences, FiniteSets, TLC
+EXTENDS Integers, Sequences, FiniteSets, TLC, Json
 CONSTANTS N, Regauge          \* Regauge = TRUE: the call first moves the centre to the matching end (repair candidate)
 Sites == 0..(N - 1)
-VARIABLES c, toRight, half, todo, ver, L, R, fwd, bnd, bad, ortho
-vars == <<c, toRight, half, todo, ver, L, R, fwd, bnd, bad, ortho>>
+VARIABLES c, toRight, half, todo, ver, L, R, fwd, bnd, bad, ortho, evs
+vars == <<c, toRight, half, todo, ver, L, R, fwd, bnd, bad, ortho, evs>>
 
 IterIdx(cc, tr) == IF tr THEN [k \in 1..(N - cc) |-> cc + k - 1] ELSE [k \in 1..(cc + 1) |-> cc - k + 1]
 \* L[i] depends on sites 0..i, R[i] on sites i..N-1 ; stamps are version vectors
@@ -18,7 +18,7 @@ Init == /\ c \in Sites /\ toRight \in BOOLEAN
         /\ half = 1
         /\ ver = [m \in Sites |-> 0]
         /\ L = [i \in Sites |-> [m \in Sites |-> 0]] /\ R = [i \in Sites |-> [m \in Sites |-> 0]]   \* Environ(mps, mpo): all fresh
-        /\ fwd = [m \in Sites |-> 0] /\ bnd = [b \in 1..(N - 1) |-> 0] /\ bad = {}
+        /\ fwd = [m \in Sites |-> 0] /\ bnd = [b \in 1..(N - 1) |-> 0] /\ bad = {} /\ evs = <<>>
         /\ todo = IF Regauge THEN IterIdx(IF toRight THEN 0 ELSE N - 1, toRight) ELSE IterIdx(c, toRight)
 
 Step ==
@@ -42,6 +42,12 @@ Step ==
                 /\ bad' = bad \cup b1 \cup (IF ok0 THEN {} ELSE {<<"stale-0site", i>>})
         ELSE /\ ver' = v1 /\ bad' = bad \cup b1 /\ UNCHANGED <<L, R, bnd, ortho>>
   /\ fwd' = [fwd EXCEPT ![Head(todo)] = @ + 1]
+  \* the calls the code makes, in order: environ.read L/R, forward local evolution of the site, then (not at the far end)
+  \* GetLR(System) of the block that absorbed the site and the backward evolution of the bond matrix
+  /\ evs' = evs \o << <<"read", "L", Head(todo) - 1>>, <<"read", "R", Head(todo) + 1>>, <<"ev1", "+", Head(todo)>> >>
+                 \o (IF ~toRight /\ Head(todo) # 0 THEN << <<"sys", "R", Head(todo)>>, <<"ev0", "-", Head(todo)>> >>
+                     ELSE IF toRight /\ Head(todo) # N - 1 THEN << <<"sys", "L", Head(todo)>>, <<"ev0", "-", Head(todo) + 1>> >>
+                     ELSE <<>>)
   /\ todo' = Tail(todo)
   /\ UNCHANGED <<c, toRight, half>>
 
@@ -50,7 +56,7 @@ Switch == /\ todo = <<>> /\ half <= 2
           /\ toRight' = ~toRight /\ c' = IF toRight THEN N - 1 ELSE 0
           /\ half' = half + 1
           /\ todo' = IF half = 1 THEN IterIdx(IF toRight THEN N - 1 ELSE 0, ~toRight) ELSE <<>>
-          /\ UNCHANGED <<ver, L, R, fwd, bnd, bad, ortho>>
+          /\ UNCHANGED <<ver, L, R, fwd, bnd, bad, ortho, evs>>
 Next == Step \/ Switch
 Spec == Init /\ [][Next]_vars
 
@@ -58,4 +64,6 @@ EnvFresh == \A x \in bad : x[1] \notin {"stale-1site", "stale-0site"}
 OnCentre == \A x \in bad : x[1] # "not-orthogonality-centre"
 FullCoverage == (half = 3) => /\ \A m \in Sites : fwd[m] = 2
                               /\ \A b \in 1..(N - 1) : bnd[b] = 2
+\* the schedule of one call for every entry gauge (with re-gauging only the direction flag matters)
+EmitSchedule == (half = 3) => PrintT(<<"EMIT", ToJson([n |-> N, start |-> (IF toRight THEN "R" ELSE "L"), events |-> evs])>>)
 =============================================================================
